@@ -6,3 +6,5 @@ package pubsub
 // package is built with -tags verif.
 
 func verifPopBeforeWait(*rpcQueue) {}
+
+func verifPushed(*rpcQueue, *RPC, bool, error) {}
